@@ -454,6 +454,29 @@ func runC09(env *lib.Env, rep *lib.Report) {
 			}
 		}
 	}
+	// ---- (v-c) short numeric spellings that denote astronomically large or small values (exponents, hexadecimal
+	// floats, long digit runs with separators): whatever the front end makes of them, it does so in time and
+	// memory proportional to the text (the 45 s watchdog and the allocation bound of (v-b) apply)
+	numShapes := []string{"1e9", "1e19", "1e400", "1e50000000", "1e600000000", "1e9999999999999", "9e-50000000", "1.5e308", "2.5e3", "1E+77", "0x1p9999999", "0x1p-9999999", "0x1.8p1",
+		"1_0e1_0", "1e", "1e+", "1.e5", ".5e5", "0b1e5", "0o7e9", "0e0", "00e00", "1e0000000000000000000000000000000000009", "123456789012345678901234567890e123456789"}
+	rep.Bounds["(v-c) numeric spellings"] = fmt.Sprintf("%d spellings with exponents / hexadecimal mantissas / digit separators in 7 positions (select item, WHERE operand, LIMIT, OFFSET, VALUES, SET, VARCHAR length)", len(numShapes))
+	for _, num := range numShapes {
+		for _, s := range []string{"SELECT " + num, "SELECT a FROM t WHERE a = " + num, "SELECT a FROM t LIMIT " + num, "SELECT a FROM t OFFSET " + num + " LIMIT 1", "INSERT INTO t VALUES (" + num + ")",
+			"UPDATE t SET a = " + num, "CREATE TABLE t (a varchar(" + num + "))"} {
+			if !r.mine() {
+				continue
+			}
+			r.prog.Set("text:numbers", s)
+			var m0, m1 runtime.MemStats
+			runtime.ReadMemStats(&m0)
+			res, err, pan := c09ParseText(s)
+			runtime.ReadMemStats(&m1)
+			r.judge("text:numbers", s, res, err, pan)
+			if alloc, limit := m1.TotalAlloc-m0.TotalAlloc, uint64(1<<20+1000*len(s)); alloc > limit {
+				r.rep.AddFailure(&lib.Failure{Kind: "parser-memory", Detail: fmt.Sprintf("[text:numbers] input %q: parsing allocated %d bytes (limit %d)", s, alloc, limit), Trace: []string{"text:numbers", s}, Params: "text:numbers"})
+			}
+		}
+	}
 	// ---- (vi) every word of every corpus statement replaced by a word / literal of 1..48 multi-byte characters
 	// (2, 3 and 4 bytes each): whatever the parser does with it - accept it or name it in an error - byte length
 	// and character count differ here
